@@ -654,6 +654,12 @@ def plan(tier, seed):
     for entry in ("scorer", "scorer-chunked", "hetero", "homo"):  # scorer-chunked: max_chunk=1, one kernel call per plate
         for n, budgets in ((4, (1, 3, 4, 5)), (5, (7, 10, 11)), (34, (5984, 6000, 5990 if tier == "thorough" else 6100))):
             items.append({"kind": "entry-budget", "entry": entry, "n": n, "budgets": list(budgets)})
+    # the same with the package logger at DEBUG
+    for inner in ([{"kind": "entry-budget", "entry": e, "n": 5, "budgets": [7, 10, 11]} for e in ("scorer", "hetero", "homo")]
+                  + [{"kind": "scoring", "n": 4, "budget": b, "full": True, "first": None, "full_up_to": 4} for b in (2, 4, 5)]
+                  + [{"kind": "scoring", "n": 10, "budget": b, "full": False, "first": None, "full_up_to": 0} for b in (119, 120, 5000)]
+                  + [{"kind": "consumed", "cases": CONSUMED[:2]}]):
+        items.append({"kind": "debug", "inner": inner})
     ft = FULL_TREE_BUDGETS[tier]
     for n in (2, 3, 4, 5, 6):
         total = math.comb(n, 3)
@@ -745,6 +751,18 @@ CONSUMED = [(5, 10), (12, 5000), (19, 5000), (20, 5000), (25, 5000), (33, 2500),
 
 def run_item(item, col, tier):
     kind = item["kind"]
+    if kind == "debug":
+        # environment dimension: the same sub-item with the package logger at DEBUG (what --verbose sets up)
+        from ..logctx import package_logger_at_debug
+
+        before = len(col.violations)
+        with package_logger_at_debug():
+            run_item(item["inner"], col, tier)
+        for v in col.violations[before:]:
+            v["sig"] += "|debug-logging"
+            v["what"] = "with the batchie logger at DEBUG: " + v["what"]
+            v["case"] = {"kind": "debug", "inner": v["case"]}
+        return
     if kind == "consumed":
         for c in item["cases"]:
             run_consumed(col, c[0], c[1], coincident=c[2] if len(c) > 2 else 0)
@@ -802,6 +820,11 @@ def run_item(item, col, tier):
 
 
 def replay(case, col):
+    if case["kind"] == "debug":
+        from ..logctx import package_logger_at_debug
+
+        with package_logger_at_debug():
+            return replay(case["inner"], col)
     if case["kind"] == "unrank":
         n, k, index = case["n"], case["k"], case["index"]
         check_one(col, index, n, k, expected=ref_unrank(index, n, k))
